@@ -243,6 +243,9 @@ Loop:
 		case "F>": // Prompt (end of proposal block)
 			// Verify checksum
 			ourChecksum = (-ourChecksum) & 0xff
+			if len(line) < 3 {
+				return false, errors.New("Malformed prompt: missing checksum")
+			}
 			their, _ := strconv.ParseInt(line[3:], 16, 64)
 			if their != ourChecksum {
 				err = errors.New(fmt.Sprintf(`Checksum error (%d-%d)`, ourChecksum, their))
